@@ -8,7 +8,22 @@ VERIF = os.path.dirname(os.path.dirname(os.path.abspath(__file__)))
 OUT = os.environ.get("VERIF_OUT", VERIF)
 
 
-def finish(prop, mod, recs, tier, seed, t0, replay_fn, verbose=False, bounded=None):
+def norm_name(name):
+    """obligation name without source line numbers (stable under inserted / removed lines)"""
+    import re
+    return re.sub(r"@L\d+", "@L", name)
+
+
+def load_baseline(prop, tier):
+    """obligations discharged on the pinned tree (committed file written by
+    `python3-vt -m pyvc.run <prop> --record-baseline`, never at check time)"""
+    p = os.path.join(VERIF, "baseline", f"{prop}.{tier}.json")
+    if not os.path.exists(p):
+        return {}
+    return json.load(open(p)).get("proved", {})
+
+
+def finish(prop, mod, recs, tier, seed, t0, replay_fn, verbose=False, bounded=None, record_baseline=False):
     findings = []
     kf_path = os.path.join(VERIF, "known_findings.json")
     if os.path.exists(kf_path):
@@ -96,6 +111,8 @@ def finish(prop, mod, recs, tier, seed, t0, replay_fn, verbose=False, bounded=No
         rc = 1
     tried = 0
     searched = {}
+    baseline = load_baseline(prop, tier)
+    regressed = 0
     for rec, o in cand:
         reproduced, detail, path = (None, "not replayed (limit)", None)
         key = (rec["case"])
@@ -111,8 +128,31 @@ def finish(prop, mod, recs, tier, seed, t0, replay_fn, verbose=False, bounded=No
             lines.append(f"  obligation={o['name']} path={o['path']} (VC undecided by the solvers: {o.get('reason')}; failing input found by replay / guided search on the real code)")
             lines.append(f"  replay: {detail}")
             rc = 1
+        elif norm_name(o["name"]) in baseline and os.environ.get("VERIF_NO_BASELINE") != "1":
+            # the obligation was discharged on the pinned tree and is no longer: reported as the
+            # violation although neither the solvers nor the guided search produced a failing input
+            regressed += 1
+            if path is None:
+                out_root = os.environ.get("VERIF_OUT", VERIF)
+                os.makedirs(os.path.join(out_root, "replays"), exist_ok=True)
+                safe = "".join(c if c.isalnum() else "_" for c in o["name"])[:120]
+                path = os.path.join(out_root, "replays", f"{prop}_{safe}_p{o['path']}.json")
+                with open(path, "w") as f:
+                    json.dump({"property": prop, "obligation": o["name"], "case": rec["case"], "kind": o["kind"],
+                               "path": o["path"], "model": o.get("candidate_model") or {}, "goal": o.get("goal"),
+                               "solver_output": o.get("reason"), "replay": {"reproduced": None, "detail": detail}},
+                              f, indent=1, default=str)
+            if regressed <= 12:
+                viol_count += 1
+                lines.append(f"VIOLATION property={prop} replay={path} no-failing-input-found")
+                lines.append(f"  obligation={o['name']} path={o['path']} was discharged on the pinned tree "
+                             f"(baseline/{prop}.{tier}.json) and is not on this tree: {o.get('reason')}")
+                lines.append(f"  replay: {detail}")
+            rc = 1
         else:
             undecided.append((o["name"], (o.get("reason") or "") + f" | candidate replay: {detail}"))
+    if regressed > 12:
+        lines.append(f"  ... and {regressed - 12} more obligations that were discharged on the pinned tree and are not now")
     for kid, obs in known_hits.items():
         kf = kf_by_id[kid]
         lines.append(f"KNOWN-FINDING: property={prop} {kf['what']} [obligations {', '.join(sorted(set(o['name'].split('::', 1)[1] for o in obs)))}; every witness in class: {kf['witness_class']}]")
@@ -203,6 +243,29 @@ def finish(prop, mod, recs, tier, seed, t0, replay_fn, verbose=False, bounded=No
     os.makedirs(os.path.join(OUT, "evidence"), exist_ok=True)
     with open(os.path.join(OUT, "evidence", f"{prop}.json"), "w") as f:
         json.dump(ev, f, indent=1, default=str)
+    if record_baseline:
+        if rc != 0:
+            lines.append("baseline NOT recorded: the run did not pass")
+        else:
+            proved, bad = {}, set()
+            for rec in recs:
+                for o in rec["obligations"]:
+                    if o["kind"] in ("vacuity", "canary"):
+                        continue
+                    k = norm_name(o["name"])
+                    if o["verdict"] == "proved":
+                        proved[k] = max(proved.get(k, 0.0), o.get("time", 0.0))
+                    else:
+                        bad.add(k)
+            for k in bad:
+                proved.pop(k, None)
+            os.makedirs(os.path.join(VERIF, "baseline"), exist_ok=True)
+            with open(os.path.join(VERIF, "baseline", f"{prop}.{tier}.json"), "w") as f:
+                json.dump({"property": prop, "tier": tier, "source_sha256": sources,
+                           "note": "obligations (names without line numbers) all of whose instances were discharged on the pinned tree; "
+                                   "value = longest solver time in seconds",
+                           "proved": dict(sorted(proved.items()))}, f, indent=1)
+            lines.append(f"baseline recorded: {len(proved)} obligation names")
     for ln in lines:
         print(ln)
     print(f"{prop}: obligations={n_ob} discharged={n_proved} known={sum(len(v) for v in known_hits.values())} "
